@@ -66,6 +66,12 @@ def apply_op(sd, op, names):
         r = guarded(sd.expand_attractor_seeds, g("size"))
     elif k == "target":
         r = guarded(sd.expand_to_target, dict(g("target")), g("size"))
+    elif k == "control":
+        def ctl():
+            from biobalm.control import succession_control
+            ivs = succession_control(sd, dict(g("target")), strategy="all" if g("all") else "internal", successful_only=False)
+            return sorted(repr(iv) for iv in ivs)
+        r = guarded(ctl)
     elif k == "block":
         r = guarded(sd.expand_block, bool(g("maa", True)), g("size"), bool(g("optsrc", True)), bool(g("exact", False)))
     elif k == "scc":
